@@ -59,7 +59,7 @@ def run(tier, seed, replay=None):
     ck.clean_replays()
     quick = tier == "quick"
     scale = 1 if quick else 25
-    plan = {"blas": 40 * scale, "blas-large": 300 * scale, "index": 400 * scale, "gemvbox": 120 * scale, "baseprod": 200 * scale, "lapack-shapes": 80 * scale, "lapack": 5 * scale, "lapack-large": 50 * scale, "base-large": 50 * scale,
+    plan = {"blas": 40 * scale, "blas-large": 450 * scale, "index": 400 * scale, "gemvbox": 120 * scale, "baseprod": 200 * scale, "lapack-shapes": 80 * scale, "lapack": 5 * scale, "lapack-large": 50 * scale, "base-large": 50 * scale,
             "dense": 12 * scale, "sparse": 6 * scale, "import": 10 * scale, "shapes": 60 * scale, "misc": 24 * scale}
     ck.rule = ("guard build; per worker x 16: " + ", ".join("%s %d" % kv for kv in plan.items()) + " generated calls / programs; BLAS calls judged by TLC "
                "(accept/reject = footprint, arguments near 2^31 clamped in the model); distinct = distinct (family, routine / operation, outcome) classes")
